@@ -177,6 +177,9 @@ def gen_sdl(seed, idx):
             fields.append("  label(a_int: Int = 1): String")
         for j in range(1 + r.randrange(3)):
             t = r.choice(leaf + tuple(objs) + (("Node",) if has_if else ()))
+            if t in objs or t == "Node":
+                # references to composite types through wrappers
+                t = r.choice(("%s", "%s", "%s!", "[%s]", "[%s!]!")) % t
             fields.append("%s  f_%d%s: %s%s%s" % (
                 _desc(r, "  "), j, args(), t, _deprecated(r),
                 _dirs(r, "FIELD_DEFINITION")))
@@ -198,6 +201,8 @@ def gen_sdl(seed, idx):
         t = r.choice(tuple(objs) + ("Int", "[String]", "Color")
                      + (("Any",) if has_union else ())
                      + (("Node",) if has_if else ()))
+        if t in objs or t in ("Any", "Node"):
+            t = r.choice(("%s", "%s", "[%s]", "[%s!]!", "%s!")) % t
         qf.append("%s  q_%d%s: %s%s%s" % (
             _desc(r, "  "), j, args(), t, _deprecated(r),
             _dirs(r, "FIELD_DEFINITION")))
@@ -242,6 +247,10 @@ def code_schema(idx):
         description="Enum with internal values\n \n(blank line above)",
     )
     anyt = ScalarType("Any", serialize=lambda v: v, parse=lambda v: v)
+    # internal values that are strings, one of them spelt like ANOTHER
+    # member's name
+    mode = EnumType("Mode", [("FIRST", "SECOND"), ("SECOND", "second_ci"),
+                             ("THIRD", "third")])
     stamp = ScalarType(
         "Stamp", serialize=lambda v: "S:%d" % v,
         parse=lambda v: int(str(v)[2:]), description="custom scalar")
@@ -276,6 +285,9 @@ def code_schema(idx):
             Field("ab", ListType(u)),
             Field("snake_case_name", String, args=[
                 Argument("some_arg", NonNullType(Int)),
+                Argument("mode", mode, default_value="SECOND"),
+                Argument("modes", ListType(mode),
+                         default_value=["second_ci", "SECOND"]),
                 Argument("one", anyt, default_value=1),
                 Argument("yes", anyt, default_value=True),
                 Argument("ratio", anyt, default_value=1.5)]),
